@@ -337,10 +337,10 @@ Inductive ssim (tok : bytes) (r1 r2 : list bytes) (ls : lstate) (st : ps) : res 
 | SS_cont : forall ls' st', good ls st ls' st' -> ssim tok r1 r2 ls st (parse_loop c r1 ls' st') (parse_loop c r2 ls' st')
 | SS_err : forall e st', ssim tok r1 r2 ls st (RErr e st') (RErr e st')
 | SS_panic : forall x, ssim tok r1 r2 ls st (RPanic x) (RPanic x)
-| SS_sub : forall n v st', ssim tok r1 r2 ls st (ROk (LSub n false v st' r1)) (ROk (LSub n false v st' r2))
-| SS_subk : forall n v st', ssim tok r1 r2 ls st (ROk (LSub n true v st' (tok :: r1))) (ROk (LSub n true v st' (tok :: r2)))
+| SS_sub : forall n v st', TV st' -> ssim tok r1 r2 ls st (ROk (LSub n false v st' r1)) (ROk (LSub n false v st' r2))
+| SS_subk : forall n v st', TV st' -> ssim tok r1 r2 ls st (ROk (LSub n true v st' (tok :: r1))) (ROk (LSub n true v st' (tok :: r2)))
 | SS_help : forall st', ssim tok r1 r2 ls st (ROk (LHelpSub r1 st')) (ROk (LHelpSub r2 st'))
-| SS_ext : forall st', ssim tok r1 r2 ls st (ROk (LExternal tok r1 st')) (ROk (LExternal tok r2 st')).
+| SS_ext : forall st', TV st' -> ssim tok r1 r2 ls st (ROk (LExternal tok r1 st')) (ROk (LExternal tok r2 st')).
 
 Lemma rpi_cases st : (exists s, resolve_pending_ignore c st = ROk s) \/ (exists x, resolve_pending_ignore c st = RPanic x).
 Proof. unfold resolve_pending_ignore. destruct (resolve_pending c st); eauto. Qed.
@@ -420,7 +420,7 @@ Proof.
       * intros Hr. apply (proj2 (ranged_pos _ _ Hr Eg)). left. apply negb_true_iff. exact Em.
     + apply SS_cont. apply Hpos; [exact Hpc|intros Hr; exact (proj1 (ranged_pos _ _ Hr Eg))|discriminate|exact HTV2|exact Hsub2].
   - destruct (is_set s_allow_external c).
-    + destruct (utf8_valid tok); [constructor|].
+    + destruct (utf8_valid tok); [constructor; exact HTV|].
       destruct (rpi_cases st) as [[s ->]|[x ->]]; cbn [rbind]; constructor.
     + destruct (rpi_cases st) as [[s ->]|[x ->]]; cbn [rbind]; constructor.
 Qed.
@@ -462,7 +462,7 @@ Proof.
   { destruct tr; [apply (P1_none tok r1 r2 (mkL pst pc vaf true) st vaf st HTV eq_refl)|].
     match goal with |- context [match (if ?b then possible_subcommand c tok vaf else None) with _ => _ end] =>
       destruct (if b then possible_subcommand c tok vaf else None) as [sc|] end.
-    { destruct (beq sc s_help && negb (is_set s_disable_help_sub c)); apply P1_early; constructor. }
+    { destruct (beq sc s_help && negb (is_set s_disable_help_sub c)); apply P1_early; constructor; exact HTV. }
     destruct (is_escape tok).
     { destruct (state_arg c pst) as [sa|e0 s0|n0]; cbn [rbind]; [|constructor|constructor].
       destruct (match sa with Some a => a_hyphen a | None => false end).
@@ -480,7 +480,7 @@ Proof.
       destruct pr; cbn [fst snd].
       all: first [ apply P1_panic
                  | apply (P1_none tok r1 r2 (mkL pst pc vaf false) st _ _ H1 H3)
-                 | apply P1_early; first [apply SS_sub | apply SS_cont; apply good_flag; [exact H1|intros j Hj; first [discriminate Hj|injection Hj as <-; apply (H2 _ eq_refl)]|exact H3]]
+                 | apply P1_early; first [apply SS_sub; exact H1 | apply SS_cont; apply good_flag; [exact H1|intros j Hj; first [discriminate Hj|injection Hj as <-; apply (H2 _ eq_refl)]|exact H3]]
                  | (match goal with |- context [resolve_pending_ignore c ?s] =>
                       destruct (rpi_cases s) as [[? ->]|[? ->]]; cbn [rbind] end;
                     [apply P1_early; apply SS_err|apply P1_panic]) ]. }
@@ -491,12 +491,12 @@ Proof.
     pose proof (parse_short_arg_sub c (mt_sub (mt st)) r pst pc vaf st eq_refl) as H3.
     rewrite El in H3. cbn [holds fst] in H3. unfold Dispatch.S_ in H3.
     destruct pr; cbn [fst snd].
-    1: { destruct (fs_at st1) as [at_|]; [|apply P1_early; apply SS_sub].
+    1: { destruct (fs_at st1) as [at_|]; [|apply P1_early; apply SS_sub; exact H1].
          destruct (checked_sub (cur_idx st1) at_) as [d|]; cbn [expect rbind]; [|apply P1_panic].
-         apply P1_early. apply SS_subk. }
+         apply P1_early. apply SS_subk. exact H1. }
     all: first [ apply P1_panic
                | apply (P1_none tok r1 r2 (mkL pst pc vaf false) st _ _ H1 H3)
-               | apply P1_early; first [apply SS_sub | apply SS_cont; apply good_flag; [exact H1|intros j Hj; first [discriminate Hj|injection Hj as <-; apply (H2 _ eq_refl)]|exact H3]]
+               | apply P1_early; first [apply SS_sub; exact H1 | apply SS_cont; apply good_flag; [exact H1|intros j Hj; first [discriminate Hj|injection Hj as <-; apply (H2 _ eq_refl)]|exact H3]]
                | (match goal with |- context [resolve_pending_ignore c ?s] =>
                     destruct (rpi_cases s) as [[? ->]|[? ->]]; cbn [rbind] end;
                   [apply P1_early; apply SS_err|apply P1_panic]) ]. }
@@ -538,9 +538,9 @@ Inductive psim (s1 s2 : list bytes) (ls : lstate) (st : ps) : res loop_res -> re
     psim s1 s2 ls st (parse_loop c s1 ls' st') (parse_loop c s2 ls' st')
 | PS_err : forall e st', psim s1 s2 ls st (RErr e st') (RErr e st')
 | PS_panic : forall x, psim s1 s2 ls st (RPanic x) (RPanic x)
-| PS_sub : forall n k v st' r, psim s1 s2 ls st (ROk (LSub n k v st' (r ++ s1))) (ROk (LSub n k v st' (r ++ s2)))
+| PS_sub : forall n k v st' r, TV st' -> psim s1 s2 ls st (ROk (LSub n k v st' (r ++ s1))) (ROk (LSub n k v st' (r ++ s2)))
 | PS_help : forall r st', psim s1 s2 ls st (ROk (LHelpSub (r ++ s1) st')) (ROk (LHelpSub (r ++ s2) st'))
-| PS_ext : forall tok r st', psim s1 s2 ls st (ROk (LExternal tok (r ++ s1) st')) (ROk (LExternal tok (r ++ s2) st')).
+| PS_ext : forall tok r st', TV st' -> psim s1 s2 ls st (ROk (LExternal tok (r ++ s1) st')) (ROk (LExternal tok (r ++ s2) st')).
 
 Theorem prefix_sim : forall pre s1 s2 ls st, hd_error s1 = hd_error s2 -> TV st -> LTV ls ->
   psim s1 s2 ls st (parse_loop c (pre ++ s1) ls st) (parse_loop c (pre ++ s2) ls st).
@@ -552,24 +552,24 @@ Proof.
     pose proof (step_sim tok (pre ++ s1) (pre ++ s2) ls st Hhd' HTV HLTV) as Hs.
     remember (parse_loop c (tok :: pre ++ s1) ls st) as R1 eqn:E1.
     remember (parse_loop c (tok :: pre ++ s2) ls st) as R2 eqn:E2.
-    destruct Hs as [ls' st' Hg|e st'|x|n v st'|n v st'|st'|st'].
+    destruct Hs as [ls' st' Hg|e st'|x|n v st' HT'|n v st' HT'|st'|st' HT'].
     + destruct Hg as (G1 & G2 & G3 & G4 & G5).
       pose proof (IH s1 s2 ls' st' Hhd G1 G2) as Hi.
       remember (parse_loop c (pre ++ s1) ls' st') as Q1 eqn:F1.
       remember (parse_loop c (pre ++ s2) ls' st') as Q2 eqn:F2.
-      destruct Hi as [ls2 st2 Hg2|e st2|x|n k v st2 r|r st2|tk r st2].
+      destruct Hi as [ls2 st2 Hg2|e st2|x|n k v st2 r HT2|r st2|tk r st2 HT2].
       * apply PS_cont. eapply good_trans; [exact (conj G1 (conj G2 (conj G3 (conj G4 G5))))|exact Hg2].
       * apply PS_err.
       * apply PS_panic.
-      * apply PS_sub.
+      * apply PS_sub. exact HT2.
       * apply PS_help.
-      * apply PS_ext.
+      * apply PS_ext. exact HT2.
     + apply PS_err.
     + apply PS_panic.
-    + apply (PS_sub s1 s2 ls st n false v st' pre).
-    + apply (PS_sub s1 s2 ls st n true v st' (tok :: pre)).
+    + apply (PS_sub s1 s2 ls st n false v st' pre HT').
+    + apply (PS_sub s1 s2 ls st n true v st' (tok :: pre) HT').
     + apply (PS_help s1 s2 ls st pre).
-    + apply (PS_ext s1 s2 ls st tok pre).
+    + apply (PS_ext s1 s2 ls st tok pre st' HT').
 Qed.
 
 (** * The iteration on [--] for a level without hyphen-accepting arguments where [--] is no subcommand name *)
@@ -609,11 +609,11 @@ Inductive esim (t1 t2 : list bytes) (ls : lstate) (st : ps) : res loop_res -> re
     esim t1 t2 ls st (parse_loop c (x ++ t1) ls' st') (parse_loop c (x ++ t2) ls' st')
 | ES_err : forall e st', esim t1 t2 ls st (RErr e st') (RErr e st')
 | ES_panic : forall x, esim t1 t2 ls st (RPanic x) (RPanic x)
-| ES_sub : forall n k v st' r,
+| ES_sub : forall n k v st' r, TV st' ->
     esim t1 t2 ls st (ROk (LSub n k v st' (r ++ dashdash :: t1))) (ROk (LSub n k v st' (r ++ dashdash :: t2)))
 | ES_help : forall r st',
     esim t1 t2 ls st (ROk (LHelpSub (r ++ dashdash :: t1) st')) (ROk (LHelpSub (r ++ dashdash :: t2) st'))
-| ES_ext : forall tok r st',
+| ES_ext : forall tok r st', TV st' ->
     esim t1 t2 ls st (ROk (LExternal tok (r ++ dashdash :: t1) st')) (ROk (LExternal tok (r ++ dashdash :: t2) st')).
 
 Theorem escape_line_sim pre t1 t2 ls st : TV st -> LTV ls ->
@@ -623,7 +623,7 @@ Proof.
   pose proof (prefix_sim pre (dashdash :: t1) (dashdash :: t2) ls st eq_refl HTV HLTV) as Hp.
   remember (parse_loop c (pre ++ dashdash :: t1) ls st) as R1 eqn:E1.
   remember (parse_loop c (pre ++ dashdash :: t2) ls st) as R2 eqn:E2.
-  destruct Hp as [ls' st' Hg|e st'|x|n k v st' r|r st'|tk r st'].
+  destruct Hp as [ls' st' Hg|e st'|x|n k v st' r HT'|r st'|tk r st' HT'].
   - destruct Hg as (G1 & G2 & G3 & G4 & G5).
     destruct (l_trailing ls') eqn:Etr.
     + apply (ES_trailing t1 t2 ls st [dashdash] ls' st' Etr G1 G4 G5).
@@ -633,9 +633,9 @@ Proof.
       unfold start_trailing. destruct (mt_pending (mt st')); reflexivity.
   - apply ES_err.
   - apply ES_panic.
-  - apply ES_sub.
+  - apply ES_sub. exact HT'.
   - apply ES_help.
-  - apply ES_ext.
+  - apply ES_ext. exact HT'.
 Qed.
 
 (** the same for one line *)
@@ -644,9 +644,9 @@ Inductive eone (t : list bytes) (ls : lstate) (st : ps) : res loop_res -> Prop :
     mt_sub (mt st') = mt_sub (mt st) -> eone t ls st (parse_loop c (x ++ t) ls' st')
 | EO_err : forall e st', eone t ls st (RErr e st')
 | EO_panic : forall x, eone t ls st (RPanic x)
-| EO_sub : forall n k v st' r, eone t ls st (ROk (LSub n k v st' (r ++ dashdash :: t)))
+| EO_sub : forall n k v st' r, TV st' -> eone t ls st (ROk (LSub n k v st' (r ++ dashdash :: t)))
 | EO_help : forall r st', eone t ls st (ROk (LHelpSub (r ++ dashdash :: t) st'))
-| EO_ext : forall tok r st', eone t ls st (ROk (LExternal tok (r ++ dashdash :: t) st')).
+| EO_ext : forall tok r st', TV st' -> eone t ls st (ROk (LExternal tok (r ++ dashdash :: t) st')).
 
 Lemma esim_left t1 t2 ls st R1 R2 : esim t1 t2 ls st R1 R2 -> eone t1 ls st R1.
 Proof. destruct 1; constructor; assumption. Qed.
@@ -698,7 +698,7 @@ Proof.
   pose proof (escape_line_sim pre t t2 ls st HTV HLTV) as Hs.
   remember (parse_loop c (pre ++ dashdash :: t) ls st) as R1 eqn:E1.
   remember (parse_loop c (pre ++ dashdash :: t2) ls st) as R2 eqn:E2.
-  destruct Hs as [x ls' st1 Htr H1 _ _|e1 s1|x|n k v s1 r|r s1|tk r s1]; try discriminate E.
+  destruct Hs as [x ls' st1 Htr H1 _ _|e1 s1|x|n k v s1 r _|r s1|tk r s1 _]; try discriminate E.
   - rewrite (trailing_no_display_TV _ _ _ _ _ Htr H1 E) in Hd. discriminate.
   - exact E.
 Qed.
